@@ -105,6 +105,8 @@ def compare(cid, src, star_events, py):
     if out is None:
         return ("no-outcome", "starlark produced no outcome record")
     if out[0] == "panic":
+        if common.is_oom_text(out[1]):
+            return ("generator", "allocation failure: %s" % out[1])
         return ("panic", "starlark panicked: %s" % out[1])
     if pout[0] == "syntax" or pout[0] == "pyfail":
         return None if out[0] == "syntax" else ("generator", "reference rejected program (%s) but starlark ran it" % (pout,))
